@@ -1446,23 +1446,26 @@ impl<'a> Gen<'a> {
         if self.cfg.fns {
             let n = if self.cfg.emph == Emph::Fn { 2 + self.rng.usize(2) } else { 1 + self.rng.usize(3) };
             for i in 0..n {
+                // names that differ only in the type sigil are different functions
+                let same_base = self.rng.pct(35);
                 let (fname, ret) = match i {
                     0 => ("A", Ty::Sng),
                     1 => {
                         if self.cfg.strings {
-                            ("B$", Ty::Str)
+                            (if same_base { "A$" } else { "B$" }, Ty::Str)
                         } else {
                             ("B", Ty::Sng)
                         }
                     }
-                    _ => ("C%", Ty::Int),
+                    _ => (if same_base { "A%" } else { "C%" }, Ty::Int),
                 };
                 let np = 1 + self.rng.usize(3);
                 let mut params = vec![];
                 let mut ptys = vec![];
                 for k in 0..np {
                     // parameter names equal to program variables on purpose
-                    let (pn, pt) = match (k + i) % 4 {
+                    let shuffle = if self.cfg.emph == Emph::Fn { self.rng.usize(4) } else { 0 };
+                    let (pn, pt) = match (k + i + shuffle) % 4 {
                         0 => ("N%", Ty::Int),
                         1 => ("A!", Ty::Sng),
                         2 => {
